@@ -475,6 +475,48 @@ def decodePdu (env : Env) (τ : Nat) (tags : List Tag) : Except Err Val :=
   | .ok (v, []) => .ok v
   | .ok (_, _ :: _) => .error .tooMany
 
+/-! ### `Any.cast_in` / `Any.cast_out` (and `SequenceOfAny`'s, same code on a list class)
+
+    The Any keeps a tag list.  `cast_in(element)` appends the element's encoding;
+    `cast_out(klass)` decodes a COPY of the tag list (`TagList(self.tagList[:])`)
+    as `klass` and insists that everything is consumed.  The model is pure, so
+    "the Any is left untouched by cast_out" is true by construction here — on
+    the implementation it is what the `any` stream of harness/c03.py checks. -/
+
+/-- the tags `Any.cast_in(element)` appends for an element of class `r` -/
+def castIn (env : Env) (r : Ref) (v : Val) : Except Err (List Tag) :=
+  match kindOf env r with
+  | .prim _ | .anyAtomic =>
+    match leafTag r v with
+    | .error e => .error e
+    | .ok t => .ok [t]
+  | .seqOf i | .listOf i | .struct i => encodeTy env i v
+  | .bad => .error .other
+
+/-- `Any.cast_out(klass)`: atomic classes want exactly one tag ("missing cast
+    component" / "too many cast components"), every other class decodes the copy
+    and refuses left-over tags ("incomplete cast") — all three are DecodingError -/
+def castOut (env : Env) (r : Ref) (tags : List Tag) : Except Err Val :=
+  match kindOf env r with
+  | .prim app =>
+    match tags with
+    | [t] => primOfTag app t
+    | _ => .error .decoding
+  | .anyAtomic =>
+    match tags with
+    | [t] =>
+      match atomOfTag t with
+      | .error e => .error e
+      | .ok (some v) => .ok v
+      | .ok none => .error .other      -- reserved application tag: Python hands out `None`
+    | _ => .error .decoding
+  | .seqOf i | .listOf i | .struct i =>
+    match decodeTy env i tags with
+    | .error e => .error e
+    | .ok (v, []) => .ok v
+    | .ok (_, _ :: _) => .error .decoding
+  | .bad => .error .other
+
 /-- registry lookup (`confirmed_request_types.get(choice)` …) -/
 def lookup (reg : List (Nat × Nat)) (choice : Nat) : Option Nat :=
   match reg with
